@@ -5,9 +5,11 @@
 //!   cachex run <engine> <scenario.json> [PROPERTY]     (development aid, VERIF_TRACE=1 prints steps)
 
 mod conc;
+mod env;
 mod loader;
 mod policy;
 mod seq;
+mod seqgen;
 
 use vcore::{Check, Ctx, EvidenceMeta, Failure, Replay};
 
